@@ -1555,8 +1555,10 @@ class CircuitTemplate(AbstractBaseTemplate):
             # group edges that connect the same vectorized node variables via the same edge templates. Without
             # vectorization every edge gets its own edge node, so edges are never merged into one group then
             # (two edges between the same variables may well share one EdgeTemplate object).
-            group_key = (source_new, target_new, template, delayed) if merge else \
-                (source_new, target_new, template, delayed, len(edge_col))
+            # (edges with a spread are gamma kernels, edges without one discrete delays: they are buffered separately)
+            with_spread = bool(edge_dict.get('spread'))
+            group_key = (source_new, target_new, template, delayed, with_spread) if merge else \
+                (source_new, target_new, template, delayed, with_spread, len(edge_col))
             if group_key in edge_col:
 
                 # extend edge dict by edge variables
